@@ -318,6 +318,16 @@ func init() {
 	modelEffects["(*bytes.Buffer).Len"] = []string{}
 	modelEffects["(*bytes.Buffer).Reset"] = []string{"Wlen", "Gh"}
 	modelEffects["(*bytes.Buffer).Bytes"] = []string{"H8", "next"}
+	models["crypto/rsa.VerifyPKCS1v15"] = func(c *callCtx) *SV {
+		vc := c.vc
+		vc.note("crypto/rsa.VerifyPKCS1v15 (assumed, library docs): returns nil exactly when the signature is valid for the key and digest; its verdict is captured as ghost rsa_ok()")
+		ok := vc.freshS(SBool, "rsa_ok")
+		err := vc.freshError(c.n.St, "rsaerr")
+		vc.assume(eq(ok, not(isErr(err))))
+		vc.lastRSA = &rsaCall{ok: ok, key: c.args[0], sig: c.args[3]}
+		return err
+	}
+	modelEffects["crypto/rsa.VerifyPKCS1v15"] = []string{"next"}
 	models["math/rand.Int31"] = func(c *callCtx) *SV {
 		c.vc.note("math/rand.Int31 returns an arbitrary non-negative int32 (library docs)")
 		v := c.vc.freshSV(types.Typ[types.Int32], "rand", c.n.St)
